@@ -19,7 +19,8 @@ Definition class_ok (c : N) (cd : cdef) : Prop :=
   (forall f d, In f (cd_fields cd) -> f_dflt f = Some d -> conforms E d (field_ty cd (f_name f))).
 Hypothesis H_env : forall c cd, e_class E c = Some cd -> class_ok c cd.
 
-Hypothesis H_dict : c_tuple cfg = false.
+(* under the tuple strategy: keyword-only attributes by keyword, init=False attributes left out (not finding F27's positional passing) *)
+Hypothesis H_tuple : c_tuple cfg = true -> c_tuple_kw cfg = true.
 Hypothesis H_recheck : c_recheck cfg = true.
 Hypothesis H_kw_last : c_kw_last cfg = true.
 
@@ -289,23 +290,27 @@ Proof.
     destruct (e_class E c) as [cd|] eqn:Ec; [|discriminate].
     destruct (H_env c cd Ec) as (W & Hd).
     set (hs := fun fname v0 => match assoc (cd_types cd) fname with Some ft => structure n ft v0 | None => Ok v0 end) in *.
-    rewrite H_dict in H.
-    match type of H with (do i <- ?r'; _) = _ => destruct r' as [i| |] eqn:Er; cbn [bind] in H; try discriminate end.
-    inversion H; subst v. clear H.
-    assert (HS : forall nm v, assoc i nm = Some v -> entry_ok val hs (cd_fields cd) nm v).
-    { assert (HK : forall (n0 : N) (v0 : val), noK n0 v0 = Ok v0) by reflexivity.
+    assert (Fin : forall i, (forall nm v, assoc i nm = Some v -> entry_ok val hs (cd_fields cd) nm v) -> conforms E (VInst c i) (TClass c)).
+    { intros i HS. econstructor; [exact Ec|]. intros nm av A. destruct (HS nm av A) as (f & Hf & Hn & Hv). split.
+      - rewrite <- Hn. now apply in_map.
+      - destruct Hv as [Hv|(w & Hw)].
+        + rewrite <- Hn. eapply Hd; [exact Hf | exact Hv].
+        + unfold hs in Hw. unfold field_ty. destruct (assoc (cd_types cd) nm); [eapply IH; exact Hw | constructor]. }
+    assert (HK : forall (n0 : N) (v0 : val), noK n0 v0 = Ok v0) by reflexivity.
+    destruct (c_tuple cfg) eqn:Et.
+    + (* tuple strategy *)
+      rewrite (H_tuple eq_refl) in H. cbn [negb] in H. rewrite andb_false_r in H. cbn [andb] in H.
+      destruct (tpl_interp_tuple val noK hs true (cd_fields cd) (seq_obj_of_val E o)) as [i| |] eqn:Er; cbn [bind] in H; try discriminate.
+      inversion H; subst v. apply Fin. eapply interp_tuple_sound; [exact HK | exact (wf_alias _ _ _ _ W) | exact Er].
+    + match type of H with (do i <- ?r'; _) = _ => destruct r' as [i| |] eqn:Er; cbn [bind] in H; try discriminate end.
+      inversion H; subst v. clear H. apply Fin.
       match type of Er with (if ?b then _ else ?r) = _ => destruct b; [destruct r as [j|e|] eqn:Er0; try discriminate; [|destruct e; discriminate] | rename Er into Er0; rename i into j] end.
       all: try (inversion Er; subst j).
       all: destruct (c_gen cfg); [destruct (c_dv cfg)|].
       all: try rewrite H_recheck in Er0; try rewrite H_kw_last in Er0.
       all: try (eapply detailed_sound; [exact HK | exact (wf_alias _ _ _ _ W) | exact (wf_name _ _ _ _ W) | exact Er0]).
       all: try (eapply fast_sound; [exact HK | exact W | exact Er0]).
-      all: try (eapply interp_dict_sound; [exact HK | exact (wf_alias _ _ _ _ W) | exact Er0]). }
-    econstructor; [exact Ec|]. intros nm v A. destruct (HS nm v A) as (f & Hf & Hn & Hv). split.
-    + rewrite <- Hn. now apply in_map.
-    + destruct Hv as [Hv|(w & Hw)].
-      * rewrite <- Hn. eapply Hd; [exact Hf | exact Hv].
-      * unfold hs in Hw. unfold field_ty. destruct (assoc (cd_types cd) nm); [eapply IH; exact Hw | constructor].
+      all: try (eapply interp_dict_sound; [exact HK | exact (wf_alias _ _ _ _ W) | exact Er0]).
   - (* NewType *) constructor. eapply IH; exact H.
   - (* Annotated *) destruct (c_gen cfg); [|discriminate]. constructor. eapply IH; exact H.
 Qed.
